@@ -33,6 +33,17 @@ def run (t : List String) : String :=
         (presented p Selium.Gen.Tls.genClientEku (genCa 0 false g) (genEntity 0 Selium.Gen.Tls.genClientEku false g))
         (presented p Selium.Gen.Tls.genServerEku (genCa 0 false g) (genEntity 0 Selium.Gen.Tls.genServerEku false g))
     then "accept" else "refuse"
+  -- a client certificate that is valid until g + k, presented at g + 1, g + 2 (valid) and g + k + 3 (lapsed): every handshake
+  -- is judged at its own moment (`presented` takes the verification time; nothing of an earlier verdict enters `handshake`)
+  | ["expiring", k] =>
+    let g : Int := 1704067200
+    let d : Int := (match k.toInt? with | some v => v | none => 0)
+    let leaf : Selium.Tls.GenCert := { issuer := 0, isCa := false, san := some "localhost", eku := some Selium.Gen.Tls.genClientEku,
+                                       notBefore := g - 86400, notAfter := g + d }
+    let srv : Selium.Tls.Identity := .signedBy 0 "localhost"
+    let verdictAt (p : Int) : String :=
+      if handshake 0 0 (presented p Selium.Gen.Tls.genClientEku (genCa 0 false g) leaf) srv then "accept" else "refuse"
+    verdictAt (g + 1) ++ "+" ++ verdictAt (g + 2) ++ "+" ++ verdictAt (g + d + 3)
   | ["cafile", s] => if handshake 0 1 (.signedBy 0 "localhost") (ident s) then "accept" else "refuse"
   | ["rotate", _] => if handshake 1 0 (.signedBy 0 "localhost") (.signedBy 0 "localhost") then "accept" else "refuse"
   -- a server certified by CA 1 that pads its chain with CA 0's certificate is still certified by CA 1
